@@ -19,11 +19,11 @@ type c18Get struct {
 }
 
 type c18Case struct {
-	Rt        string     `json:"rt"`   // restorenext | next | slowinit (still initialising when the restore comes) | busy (working on an invocation when it comes)
-	BusyMs    int        `json:"busyMs,omitempty"`
+	Rt     string `json:"rt"` // restorenext | next | slowinit (still initialising when the restore comes) | busy (working on an invocation when it comes)
+	BusyMs int    `json:"busyMs,omitempty"`
 	// CustEnv: the function's own configuration names the credential variables (token | uri | both): the runtime must
 	// still find the per-instance token and this instance's endpoint in its environment
-	CustEnv string `json:"custEnv,omitempty"`
+	CustEnv   string     `json:"custEnv,omitempty"`
 	Hook      string     `json:"hook"` // ok | rerr | initerr | stall | exit
 	HookMs    int        `json:"hookMs"`
 	TimeoutMs int        `json:"timeoutMs"`
@@ -344,7 +344,7 @@ func c18Check(c c18Case) (out kit.Outcome) {
 
 func c18Gen(t *rapid.T) c18Case {
 	c := c18Case{Rt: rapid.SampledFrom([]string{"restorenext", "restorenext", "restorenext", "restorenext", "restorenext", "next", "slowinit", "busy"}).Draw(t, "rt"),
-		BusyMs: rapid.SampledFrom([]int{1300, 1800}).Draw(t, "busy"),
+		BusyMs:    rapid.SampledFrom([]int{1300, 1800}).Draw(t, "busy"),
 		Hook:      rapid.SampledFrom([]string{"ok", "ok", "rerr", "initerr", "stall", "exit"}).Draw(t, "hook"),
 		TimeoutMs: rapid.SampledFrom([]int{100, 300}).Draw(t, "timeout"), Second: rapid.IntRange(0, 2).Draw(t, "second") == 0}
 	switch rapid.IntRange(0, 3).Draw(t, "timing") {
@@ -375,14 +375,14 @@ func c18Gen(t *rapid.T) c18Case {
 	n := rapid.IntRange(0, 5).Draw(t, "gets")
 	for i := 0; i < n; i++ {
 		c.Gets = append(c.Gets, c18Get{When: rapid.SampledFrom([]string{"before", "after1", "after1", "after2"}).Draw(t, fmt.Sprintf("when%d", i)),
-			Token: rapid.SampledFrom([]string{"env", "env", "wrong", "empty", "lit:Bearer x", "lit:0f0e0d0c-aaaa-4bbb-8ccc-ddddeeeeffff "}).Draw(t, fmt.Sprintf("tok%d", i))})
+			Token: rapid.SampledFrom([]string{"env", "env", "env", "wrong", "empty", "lit:Bearer x", "lit:0f0e0d0c-aaaa-4bbb-8ccc-ddddeeeeffff ", "near:upper", "near:trunc", "near:ext", "near:flip", "near:bearer"}).Draw(t, fmt.Sprintf("tok%d", i))})
 	}
 	return c
 }
 
 func c18Fixed() []c18Case {
 	cr := [][]string{{"AKIAINITIAL0", "secretInitial", "sessionInitial"}, {"AKIARESTORE1", "secretRestore1", "sessionRestore1"}, {"AKIARESTORE2", "secretRestore2", "sessionRestore2"}}
-	g := []c18Get{{When: "before", Token: "env"}, {When: "before", Token: "wrong"}, {When: "after1", Token: "env"}, {When: "after1", Token: "empty"}, {When: "after2", Token: "env"}}
+	g := []c18Get{{When: "before", Token: "env"}, {When: "before", Token: "wrong"}, {When: "after1", Token: "env"}, {When: "after1", Token: "empty"}, {When: "after1", Token: "near:upper"}, {When: "after2", Token: "near:trunc"}, {When: "after2", Token: "env"}}
 	var out []c18Case
 	for _, h := range []string{"ok", "rerr", "initerr", "stall", "exit"} {
 		out = append(out, c18Case{Rt: "restorenext", Hook: h, HookMs: 40, TimeoutMs: 300, ErrType: "Runtime.HookBoom", Creds: cr, Second: true, Gets: g})
